@@ -9,6 +9,7 @@ package rotime
 
 //@ func Add$1
 //@   props C18
+//@   binds value d
 //@   maypanic
 //@   track call.*
 //@   ensures [calls-the-wrapped-function-once|C18] count(call.ANY) == 1 && called(call.Time.Add)
@@ -17,6 +18,7 @@ package rotime
 
 //@ func AddDate$1
 //@   props C18
+//@   binds value years months days
 //@   maypanic
 //@   track call.*
 //@   ensures [calls-the-wrapped-function-once|C18] count(call.ANY) == 1 && called(call.Time.AddDate)
@@ -25,6 +27,7 @@ package rotime
 
 //@ func Format$1
 //@   props C18
+//@   binds value format
 //@   maypanic
 //@   track call.*
 //@   ensures [calls-the-wrapped-function-once|C18] count(call.ANY) == 1 && called(call.Time.Format)
@@ -33,6 +36,7 @@ package rotime
 
 //@ func In$1
 //@   props C18
+//@   binds value loc
 //@   maypanic
 //@   track call.*
 //@   ensures [calls-the-wrapped-function-once|C18] count(call.ANY) == 1 && called(call.Time.In)
@@ -41,6 +45,7 @@ package rotime
 
 //@ func Parse$1
 //@   props C18
+//@   binds value layout
 //@   maypanic
 //@   track call.*
 //@   ensures [calls-the-wrapped-function-once|C18] count(call.ANY) == 1 && called(call.Parse)
@@ -49,6 +54,7 @@ package rotime
 
 //@ func ParseInLocation$1
 //@   props C18
+//@   binds value layout loc
 //@   maypanic
 //@   track call.*
 //@   ensures [calls-the-wrapped-function-once|C18] count(call.ANY) == 1 && called(call.ParseInLocation)
